@@ -84,4 +84,3 @@ m("C10-finalize-else", "C10", "renderable/_types.py", "            try:\n       
 m("C10-init-render-finalize-inverted", "C10", "renderable/_renderable.py", "        finally:\n            if finalize:\n                render_data.finalize()", "        finally:\n            if not finalize:\n                render_data.finalize()")
 m("C06-height-ge", "C06", "renderable/_renderable.py", "                if not allow_scroll and height > terminal_height:", "                if not allow_scroll and height >= terminal_height:")
 m("C06-width-unchecked", "C06", "renderable/_renderable.py", "                if width > terminal_width:", "                if width > terminal_width + 1:")
-m("C06-check-after-render", "C06", "renderable/_renderable.py", "            return renderer(render_data, render_args), padding\n        finally:", "            result = renderer(render_data, render_args), padding\n            if check_size and padding and padding.get_padded_size(render_data[Renderable].size)[0] > terminal_size[0]:\n                raise RenderSizeOutofRangeError('late')\n            return result\n        finally:")
